@@ -80,6 +80,41 @@ fn judge(rep: &mut Rep, resp: &ctap1::Response, parts: &Parts, cap: usize, prefi
     }
 }
 
+/// Realistic contents: X.509 certificates and ECDSA signatures are DER (`30 82 hi lo …`,
+/// `30 len 02 …`), often followed by padding; the declared inner length is made shorter than,
+/// equal to and longer than the field.
+fn der_like(rng: &mut Rng, n: usize) -> Vec<u8> {
+    let mut v = crate::schema::gen_bytes_content(rng, n);
+    if n >= 4 && rng.chance(1, 3) {
+        let inner = match rng.below(4) {
+            0 => n - 4,
+            1 => (n - 4).saturating_sub(1 + rng.usize(8)),
+            2 => n - 4 + 1 + rng.usize(8),
+            _ => rng.usize(n),
+        };
+        if rng.bool() && n >= 4 {
+            v[0] = 0x30;
+            v[1] = 0x82;
+            v[2] = (inner >> 8) as u8;
+            v[3] = inner as u8;
+        } else {
+            v[0] = 0x30;
+            v[1] = (n.saturating_sub(2 + rng.usize(4))) as u8;
+            if n > 2 {
+                v[2] = 0x02;
+            }
+        }
+        if rng.bool() {
+            // zero padding after the DER object
+            let pad = rng.usize(6).min(n.saturating_sub(4));
+            for b in v.iter_mut().rev().take(pad) {
+                *b = 0;
+            }
+        }
+    }
+    v
+}
+
 fn gen_register(rng: &mut Rng, khl: usize, certl: usize, sigl: usize) -> (ctap1::Response, Parts) {
     let header = rng.u64() as u8;
     let mut pk = {
@@ -87,8 +122,8 @@ fn gen_register(rng: &mut Rng, khl: usize, certl: usize, sigl: usize) -> (ctap1:
         rng.bytes(n)
     };
     let mut kh = crate::schema::gen_bytes_content(rng, khl);
-    let mut cert = crate::schema::gen_bytes_content(rng, certl);
-    let mut sig = crate::schema::gen_bytes_content(rng, sigl);
+    let mut cert = der_like(rng, certl);
+    let mut sig = der_like(rng, sigl);
     let r = register::Response {
         header_byte: header,
         public_key: hb(&mut pk),
@@ -105,7 +140,7 @@ fn gen_register(rng: &mut Rng, khl: usize, certl: usize, sigl: usize) -> (ctap1:
 
 fn gen_authenticate(rng: &mut Rng, sigl: usize, count: u32) -> (ctap1::Response, Parts) {
     let up = rng.u64() as u8;
-    let mut sig = crate::schema::gen_bytes_content(rng, sigl);
+    let mut sig = der_like(rng, sigl);
     let r = authenticate::Response {
         user_presence: up,
         count,
